@@ -85,9 +85,14 @@ impl Input for str {
     /// slicing by a range.end-range.start chars.
     #[inline]
     fn slice(&self, range: Range<usize>) -> &<Self as Index<Range<usize>>>::Output {
-        &self[range.start
-            ..range.start
-                + self[range.start..]
+        // Move the start back to a char boundary to prevent panics.
+        let mut start = range.start;
+        while !self.is_char_boundary(start) {
+            start -= 1;
+        }
+        &self[start
+            ..start
+                + self[start..]
                     .char_indices()
                     .take(range.end - range.start + 1)
                     .map(|(idx, _)| idx)
